@@ -30,6 +30,7 @@ def sh(cmd, **kw):
 
 def main():
     sid, prop, out = sys.argv[1:4]
+    benign = "--benign" in sys.argv   # a property-preserving refactoring: kept under /verif/benign as a control
     patch = os.path.join(out, "patch.diff")
     demo = os.path.join(out, "demo.py")
     scratch = tempfile.mkdtemp(prefix="vf-import-")
@@ -65,20 +66,22 @@ def main():
             ok = ok and report["imports"] and "62 passed" in report["tests"] and \
                 failed == ["FAILED tests/test_cgi.py::CGIHandlerTests::test_server - TypeError: 'NoneType..."] or \
                 (ok and report["imports"] and "62 passed" in report["tests"] and len(failed) == 1 and "test_cgi" in failed[0])
-            ok = ok and d0.returncode == 0 and d1.returncode != 0
+            ok = ok and d0.returncode == 0 and ((d1.returncode == 0) if benign else (d1.returncode != 0))
     finally:
         sh(["git", "-C", REPO, "worktree", "remove", "--force", copy])
         shutil.rmtree(scratch, ignore_errors=True)
     report["confirmed"] = bool(ok)
     print(json.dumps(report, indent=1))
     if ok:
-        dest = os.path.join(VERIF, "seeded", sid)
+        dest = os.path.join(VERIF, "benign" if benign else "seeded", sid)
         os.makedirs(dest, exist_ok=True)
         for f in ("patch.diff", "demo.py", "notes.md"):
             if os.path.exists(os.path.join(out, f)):
                 shutil.copy(os.path.join(out, f), os.path.join(dest, f))
         head = sh(["git", "-C", REPO, "rev-parse", "--short", "HEAD"]).stdout.strip()
-        meta = {"property": prop, "origin": "independent sub-agent given only the property text and a scratch worktree",
+        meta = {"property": prop, "control": benign,
+                "origin": "independent sub-agent given only the property text and a scratch worktree"
+                          + (" (asked for a property-PRESERVING refactoring)" if benign else ""),
                 "repo_head": head, "confirmed": {k: report[k] for k in ("tests", "demo_exit_without_change",
                                                                           "demo_exit_with_change", "files")},
                 "what_it_needs_to_manifest": "see notes.md",
